@@ -1474,7 +1474,11 @@ def set_seq_zo_fo_absorption(model: Model):
                 )
                 remove_dose = False
             model, _ = _add_first_order_absorption(
-                model, fo_dose, dose_comp, remove_dose=remove_dose
+                model,
+                fo_dose,
+                dose_comp,
+                bioavailability=dose_comp.bioavailability,
+                remove_dose=remove_dose,
             )
         elif not depot and not have_ZO:
             model = set_first_order_absorption(model)
